@@ -2,7 +2,7 @@ CONSTANTS
   Marks = {"none", "skip_serializing", "skip_deserializing"}
   Collisions = {"none", "not3", "xy3"}
   Spellings = {"after_list", "between_lists", "merged", "split", "apart"}
-  Idents = {"UserId", "A", "Foo", "FooBar", "HTTPServer", "URL", "Init", "Default", "None"}
+  Idents = {"<A>nderung", "UserId", "A", "Foo", "FooBar", "HTTPServer", "URL", "Init", "Default", "None"}
   Renames = {"empty", "none", "x", "foo-bar", "init", "$ref"}
   Kinds = {"newtype_opt", "unit", "newtype", "struct"}
   RuleSet = {"none", "lowercase", "UPPERCASE", "PascalCase", "camelCase", "snake_case", "SCREAMING_SNAKE_CASE", "kebab-case", "SCREAMING-KEBAB-CASE"}
